@@ -87,6 +87,11 @@ def apply_prelude(psi, case):
     elif pre['edit'] == 'assign_perturbed':
         # new entries on the existing sparsity pattern (keeps the quantum number rule)
         psi.A[k] = np.where(mask, a + 0.3 * (rng.normal(size=a.shape) + 1j * rng.normal(size=a.shape)), 0)
+    elif pre['edit'] == 'tiny_scale':
+        # nearly canonical input: the tensor stays an isometry up to a relative deviation of 2e-6 (far above rounding)
+        psi.A[k] = (1 + 2e-6) * a
+    elif pre['edit'] == 'tiny_perturbed':
+        psi.A[k] = np.where(mask, a * (1 + 3e-7 * rng.normal(size=a.shape)), 0)
     elif pre['edit'] == 'none':
         pass
 
@@ -276,7 +281,7 @@ def gen_compress(draw, tier):
     case = {'obj': obj, 'mode': draw(st.sampled_from(['left', 'right'])), 'spectrum': draw(st.sampled_from(SPECTRA)), 'tol': tol}
     if draw(st.sampled_from(range(3))) == 2:
         case['prelude'] = {'op': draw(st.sampled_from(['orth_left', 'orth_right', 'compress_left', 'compress_right'])),
-                           'edit': draw(st.sampled_from(['assign_scaled', 'inplace_scale', 'assign_perturbed', 'none'])),
+                           'edit': draw(st.sampled_from(['assign_scaled', 'inplace_scale', 'assign_perturbed', 'none', 'tiny_scale', 'tiny_perturbed'])),
                            'site': draw(st.integers(0, 5))}
     return case
 
